@@ -72,6 +72,8 @@ type Unit struct {
 	axiomErrs       []string
 	localLocs       map[string]map[string]string // function key -> source name -> structural locator
 	replayWhy       string
+	exitPc          string // path condition of the merged return state (reachability cover)
+	retPcs          [][2]string // path condition and position of every return of the top-level function
 	lastMonBase     map[*Monitor]*monBase
 	enumTag         map[string]*enumInfo // slice term -> the map whose keys it enumerates (after the loop)
 	usedInvs        map[string]bool
@@ -81,6 +83,7 @@ type Unit struct {
 	noInv           bool
 	skipInv         map[string]bool
 	insertOnlyAddrs []*Val
+	noDeleteAddrs   []*Val
 	frameMode       bool
 	monitorHook     func(fr *Frame, name string, st *State, args []*Val, pos token.Pos)
 	ospecDone       map[string]bool
@@ -163,7 +166,12 @@ func (u *Unit) oblige(fr *Frame, s *State, class, detail, goal string, pos token
 	if fr == nil {
 		return
 	}
-	// assume afterwards
+	// assume afterwards - only where a violation stops the execution (panics) or makes the rest meaningless (a
+	// callee precondition, an assertion of the contract itself). Frame, order and lock-discipline violations do not
+	// stop the program: the code after them is still judged on every path.
+	if !panicClass[class] && class != "pre" && class != "inv-init" && class != "inv-keep" && class != "inv-auto" && class != "ovf" {
+		return
+	}
 	npc := u.w.newConst("pc", "Bool")
 	u.fact(eq(npc, and(s.pc, goal)))
 	s.pc = npc
@@ -228,6 +236,7 @@ type Frame struct {
 	curInstr                           ssa.Instruction
 	nameCands                          map[string][]ssa.Value // source names with several definitions
 	locIndex                           map[string]ssa.Value
+	retPos                             []string
 }
 
 func (fr *Frame) val(v ssa.Value) *Val {
@@ -748,6 +757,121 @@ func (fr *Frame) orderCheck(from, to *ssa.BasicBlock, e *State) {
 	}
 }
 
+// mapOrderLoop: the loop with header h visits its elements in map iteration order: a range over a map, or a range
+// over the slice returned by reflect.Value.MapKeys
+func (fr *Frame) mapOrderLoop(h *ssa.BasicBlock) bool {
+	for _, in := range h.Instrs {
+		if nx, ok := in.(*ssa.Next); ok {
+			if rg, ok := nx.Iter.(*ssa.Range); ok {
+				if _, ok := rg.X.Type().Underlying().(*types.Map); ok {
+					return true
+				}
+			}
+		}
+	}
+	isKeys := func(v ssa.Value) bool {
+		c, ok := v.(*ssa.Call)
+		if !ok {
+			return false
+		}
+		callee := c.Call.StaticCallee()
+		return callee != nil && extName(callee) == "(reflect.Value).MapKeys"
+	}
+	hasIdx := false
+	for _, in := range h.Instrs {
+		if p, ok := in.(*ssa.Phi); ok && p.Comment == "rangeindex" {
+			hasIdx = true
+		}
+	}
+	if !hasIdx {
+		return false
+	}
+	for b := range fr.loopBody[h] {
+		for _, in := range b.Instrs {
+			if ia, ok := in.(*ssa.IndexAddr); ok && isKeys(ia.X) {
+				return true
+			}
+		}
+	}
+	return false
+}
+
+// orderVerdictCheck (frame mode): a function returns "no error" from inside a loop that runs in map iteration order
+// while the same loop also has returns with an error: whether the error or the success is reached first depends on
+// the order, so the verdict does.
+func (fr *Frame) orderVerdictCheck(b *ssa.BasicBlock, ret *ssa.Return, st *State) {
+	u := fr.u
+	if !u.frameMode || fr.depth != 0 || len(ret.Results) == 0 {
+		return
+	}
+	last := ret.Results[len(ret.Results)-1]
+	if !isErrorType(last.Type()) {
+		return
+	}
+	c, ok := last.(*ssa.Const)
+	if !ok || !c.IsNil() {
+		return
+	}
+	for h, body := range fr.loopBody {
+		if !fr.mapOrderLoop(h) {
+			continue
+		}
+		region := fr.earlyExitRegion(h)
+		if !body[b] && !region[b] {
+			continue
+		}
+		// does the loop also leave early with an error?
+		errRet := false
+		for ob := range region {
+			if len(ob.Instrs) == 0 {
+				continue
+			}
+			if r2, ok := ob.Instrs[len(ob.Instrs)-1].(*ssa.Return); ok && r2 != ret && len(r2.Results) > 0 {
+				l2 := r2.Results[len(r2.Results)-1]
+				if c2, isC := l2.(*ssa.Const); !isC || !c2.IsNil() {
+					errRet = true
+				}
+			}
+		}
+		if errRet {
+			u.oblige(fr, st, "order", fmt.Sprintf("verdict.loop%d", fr.loopOrd[h]), "false", ret.Pos(), "success is returned from inside a loop in map iteration order that also returns errors: the verdict may depend on the order")
+		}
+	}
+}
+
+// earlyExitRegion: the blocks through which the loop with header h is left other than by its normal exit (returns
+// and the blocks that lead only to them)
+func (fr *Frame) earlyExitRegion(h *ssa.BasicBlock) map[*ssa.BasicBlock]bool {
+	body := fr.loopBody[h]
+	var done *ssa.BasicBlock
+	for _, sc := range h.Succs {
+		if !body[sc] {
+			done = sc
+		}
+	}
+	region := map[*ssa.BasicBlock]bool{}
+	var work []*ssa.BasicBlock
+	for bb := range body {
+		for _, sc := range bb.Succs {
+			if !body[sc] && sc != done && !region[sc] {
+				region[sc] = true
+				work = append(work, sc)
+			}
+		}
+	}
+	for len(work) > 0 {
+		x := work[len(work)-1]
+		work = work[:len(work)-1]
+		for _, sc := range x.Succs {
+			if !body[sc] && sc != done && !region[sc] {
+				region[sc] = true
+				work = append(work, sc)
+			}
+		}
+	}
+	return region
+}
+
 func (fr *Frame) setEdge(from, to *ssa.BasicBlock, st *State, cond string) {
 	u := fr.u
 	e := st.clone()
@@ -901,6 +1025,7 @@ func (fr *Frame) step(b *ssa.BasicBlock, in ssa.Instruction, st *State) {
 		fr.setEdge(b, b.Succs[0], st, "true")
 	case *ssa.Return:
 		fr.runDefersIfAny(st)
+		fr.orderVerdictCheck(b, x, st)
 		var vs []*Val
 		for _, r := range x.Results {
 			rv := fr.val(r)
@@ -910,6 +1035,12 @@ func (fr *Frame) step(b *ssa.BasicBlock, in ssa.Instruction, st *State) {
 			vs = append(vs, rv)
 		}
 		fr.rets = append(fr.rets, retInfo{st: st.clone(), vals: vs})
+		if p := x.Pos(); p.IsValid() {
+			pp := u.eng.fset.Position(p)
+			fr.retPos = append(fr.retPos, fmt.Sprintf("%s:%d", shortFile(pp.Filename), pp.Line))
+		} else {
+			fr.retPos = append(fr.retPos, "")
+		}
 	case *ssa.Panic:
 		fr.explicitPanic(x, st)
 	case *ssa.Defer:
